@@ -20,7 +20,7 @@ Lemma layout_agree bs order po lens :
   bs mod 2 ^ po = 0 -> order < bs / 2 ^ po ->
   struct_part_lens bs order po = map Some lens ->
   let n := N.to_nat bs in let on := N.to_nat order in let count := (2 ^ N.to_nat po)%nat in
-  (count <= n)%nat /\ rchunk_lens (n - on) (n / count) = lens /\ length lens = count.
+  (n mod count = 0)%nat /\ rchunk_lens (n - on) (n / count) = lens /\ length lens = count.
 Proof.
   intros Hdiv Hord Hl n on count.
   assert (Hc0 : 2 ^ po <> 0) by (apply N.pow_nonzero; discriminate).
@@ -35,17 +35,16 @@ Proof.
   assert (Hk : (on < k)%nat) by (unfold on, k; lia).
   assert (Hcount : (1 <= count)%nat).
   { unfold count. pose proof (Nat.pow_nonzero 2 (N.to_nat po) ltac:(lia)). lia. }
-  (* the structural lengths *)
   unfold struct_part_lens in Hl. fold size in Hl. rewrite Ecount in Hl.
   destruct count as [|c] eqn:Ec; [lia|].
   cbn [seq map] in Hl. rewrite Nat.eqb_refl in Hl.
-  destruct (N.leb_spec order size) as [_|]; [|lia].
+  destruct (N.ltb_spec order size) as [_|]; [|lia].
   rewrite (map_seq_const _ (Some k)) in Hl.
-  2:{ intros i Hi. destruct (Nat.eqb_spec i 0); [lia|reflexivity]. }
+  2:{ intros i Hi. destruct (Nat.eqb_spec i 0); [lia|]. destruct (N.ltb_spec 0 size); [reflexivity|lia]. }
   replace (N.to_nat (size - order)) with (k - on)%nat in Hl by (unfold k, on; lia).
   assert (Elens : lens = (k - on)%nat :: repeat k c).
   { apply map_Some_inj. rewrite <- Hl. cbn [map]. f_equal. clear. induction c; cbn; congruence. }
-  split; [nia|]. split.
+  split; [rewrite En; apply Nat.mod_mul; lia|]. split.
   - rewrite Elens. rewrite En. rewrite Nat.div_mul by lia.
     unfold rchunk_lens.
     destruct (Nat.eq_dec on 0) as [E0|N0].
